@@ -36,7 +36,7 @@ func C07(c *Ctx, r *report.Run) error {
 	}
 	specs = append(specs, univ.PairSpecs(c.Thorough)...)
 	r.Programs = len(specs)
-	w, err := ws.Build(c.Bins, specs, ws.Options{Variant: ws.HC, Tag: "rtHC08", Harness: true, TS: true})
+	w, err := ws.Build(c.Bins, specs, ws.Options{Variant: ws.CH, Tag: "rtCH08", Harness: true, TS: true})
 	if err != nil {
 		return err
 	}
@@ -122,6 +122,7 @@ func C07(c *Ctx, r *report.Run) error {
 	handlerSigOf := func(unit, svc, rpc string) *model.TSMethodSig { return sigIn(hsigs, "Handler", unit, svc, rpc) }
 	sigFound := 0
 	var declared *model.TSType // when set, the next judge call uses this type (the RPC's declared result) instead of the message's declaration
+	var documented any         // when set, the documented form (M-json) of the value the next judge call looks at: a required member that is absent from the value but present there has been LOST, not omitted as a zero value
 	judge := func(unit, cellBase, class, source string, d model.TSDecls, full string, value any, raw string) {
 		cell := fmt.Sprintf("%s,src=%s", cellBase, source)
 		if d == nil {
@@ -138,6 +139,17 @@ func C07(c *Ctx, r *report.Run) error {
 			return
 		}
 		ps := d.Check(value, t, "")
+		doc := documented
+		documented = nil
+		if doc != nil {
+			for i := range ps {
+				if ps[i].Kind == "missing" {
+					if _, found := model.Ptr(doc, ps[i].Path); found {
+						ps[i].Kind = "lost"
+					}
+				}
+			}
+		}
 		if len(ps) == 0 {
 			r.Case(cell, "inhabits_type", true)
 			return
@@ -146,11 +158,11 @@ func C07(c *Ctx, r *report.Run) error {
 		for _, p := range ps {
 			kinds[p.Kind] = append(kinds[p.Kind], p.Path+" "+p.Msg)
 		}
-		for _, k := range []string{"type", "excess", "missing"} {
+		for _, k := range []string{"type", "excess", "missing", "lost"} {
 			if len(kinds[k]) == 0 {
 				continue
 			}
-			sym := map[string]string{"type": "not_in_type", "excess": "excess_property", "missing": "required_member_absent"}[k]
+			sym := map[string]string{"type": "not_in_type", "excess": "excess_property", "missing": "required_member_absent", "lost": "documented_member_absent"}[k]
 			sort.Strings(kinds[k])
 			r.Violate(cell+"#"+class, sym, fmt.Sprintf("%s is not a value of %s: %s | value %s", source, name, strings.Join(kinds[k][:min(3, len(kinds[k]))], "; "), short(raw, 300)), nil)
 			r.Case(cell, sym, true)
@@ -180,6 +192,9 @@ func C07(c *Ctx, r *report.Run) error {
 			sigFound++
 		} else if decls[in.Unit][0] != nil {
 			r.Violate(fmt.Sprintf("%s,rpc=%s.%s,src=ts_client_module", in.Cell, in.Svc, in.RPC), "method_not_declared", "the TS client module declares no method for this RPC", nil)
+		}
+		if in.Want != "" {
+			documented, _ = model.Parse([]byte(in.Want))
 		}
 		judge(in.Unit, fmt.Sprintf("%s,rpc=%s.%s", in.Cell, in.Svc, in.RPC), cls, "go_server_response", decls[in.Unit][0], outType[key], v, in.Body)
 	}
